@@ -1213,6 +1213,66 @@ def register():
             GENS[k[4:]] = v
 
 
+HUGE_PIDS = {"C01", "C02", "C03", "C08", "C09", "C10"}
+
+
+def gen_huge(pid, tier, seed):
+    """arrays of the zero-sized `unit` kind with up to usize::MAX cells (`TooDee::init(c, r, ())` is O(1)): the crate's index
+    arithmetic at the top of the usize range, judged by the numbers it reports (DESIGN.md §5, `specHuge`)"""
+    rng = random.Random(seed + 99)
+    b = Builder(pid + "h")
+    M = U64
+    shapes_h = [(3, M // 3), (1, M), (M, 1), (2, 2**63 - 1), (2**32, 2**31), (2**32 - 1, 2**32 + 1), (5, 2**61), (7, M // 7), (2**63, 1)]
+    if tier == "quick":
+        shapes_h = shapes_h[:6]
+    for (C, R) in shapes_h:
+        root = f"@ init {C} {R} 0"
+        n = C * R
+        def args(total):
+            return sorted(set(x for x in [0, 1, 2, total - 2, total - 1, total, total + 1, total // 2, 2**32, 2**63, M, M - 1] if 0 <= x <= M))
+        lines = [root, "@ size"]
+        if pid in ("C01", "C08"):
+            if C <= 64:
+                lines.append("@ lens")
+            for a in args(R):
+                lines += [f"@ rows l,N{a},l,n,l,b,l", f"@ rows B{a},l,h,N0,l", f"@x rows l,B{a},N1,l,w"]
+                if C <= 64:
+                    lines.append(f"@ rows_mut N{a},B{a},l")      # the harness writes to every cell of a yielded row
+            lines += ["@ rows L", "@ rows c", "@ rows n,b,n,b,l"]
+        if pid in ("C01", "C09"):
+            for c in sorted(set([0, C - 1, C, C // 2])):
+                if c > M:
+                    continue
+                for a in args(R)[:8] + [R - 1, R]:
+                    lines += [f"@ col {c} l,N{a},l,n,l", f"@ col {c} B{a},l,b,l", f"@ col {c} i{a}", f"@ col_mut {c} N{a},B0,l"]
+        if pid in ("C01", "C10"):
+            for a in args(n):
+                lines += [f"@ cells l,N{a},l,n,l,b,l", f"@ cells B{a},l,N0,l,w", f"@ cells_mut N{a},B{a},l", f"@ iter_ref l,B{a},l"]
+            lines += ["@ cells L"]          # (`count()` of the cell iterator is the std default: it walks every cell)
+        if pid == "C02":
+            for c in sorted(set([0, C - 1, C])):
+                for r in args(R)[:9] + [R - 1, R]:
+                    if c <= M and r <= M:
+                        lines += [f"@ get {c} {r}", f"@ rowget {r} {c}", f"@ colget {c} {r}"]
+            if C <= 64:
+                lines += [f"@ row {R - 1}", f"@ row {R}", "@ row 0"]
+        if pid == "C03":
+            wins = []
+            for _ in range(12 if tier == "quick" else 60):
+                c0 = rng.choice([0, 1, C // 2, C - 1, C]); c1 = rng.choice([c0, C, max(c0, C - 1), C + 1])
+                r0 = rng.choice([0, 1, R // 2, R - 1, R]); r1 = rng.choice([r0, R, max(r0, R - 1), R + 1, M])
+                if max(c0, c1, r0, r1) <= M:
+                    wins.append((c0, r0, c1, r1))
+            for w in wins:
+                s_ = ",".join(map(str, w))
+                lines += [f"@v({s_}) size", f"@w({s_}) size", f"@xv({s_}) size", f"@v({s_}) rows l,B0,N1,l", f"@w({s_}) cells l,N5,l"]
+                wc, wr = w[2] - w[0], w[3] - w[1]
+                if 0 < wc and 0 < wr and w[2] <= C and w[3] <= R:
+                    lines += [f"@v({s_})v(0,{wr // 2},{wc},{wr}) size", f"@v({s_})w(0,1,{wc},{wr}) rows l,N{wr},l"]
+        b.case("unit", lines)
+    return b.cases
+
+
 OTHER_KINDS = {"C04", "C13", "C14", "C15", "C16", "C17"}     # in-place algorithms: written for u32 cases, re-run on the other kinds
 ITER_WORDS = ("rows_mut", "cells_mut", "col_mut", "iter_mut", "row_pair", "rows ", "cells ", "col ", "iter_ref")
 
@@ -1234,6 +1294,8 @@ def generate(pid, tier, seed):
                     if body:
                         extra.append([c[0].replace("elem=u32", f"elem={kind}").replace(f"case {pid}-", f"case {pid}k-")] + body + ["end"])
         cases = cases + extra
+    if pid in HUGE_PIDS:
+        cases = cases + gen_huge(pid, tier, seed)
     return cases
 
 
